@@ -109,6 +109,18 @@ let judge_thompson_call (counts : nat list) (vals : q list) (act : nat) =
   end;
   c_nat "thompson_sample" site act (thompson_sample (List.combine counts vals))
 
+(* setter lists applied before the dumps: the implementation prints (thrown, getter) per call; the
+   oracle checks acceptance/rejection and the getter against the specification of the setter *)
+let fold_setter clause site (set : q -> q -> q) (throws : q -> bool) (cur0 : q) (sets : q list) (r : cursor) : q =
+  let n = next_int r in
+  if n <> List.length sets then failwith "setter count";
+  List.fold_left (fun cur v ->
+      let thrown = next_int r <> 0 in let g = next_q r in
+      if thrown <> throws v then oracle_fail clause site ("set(" ^ string_of_q v ^ ") " ^ (if thrown then "threw" else "was accepted"));
+      let cur' = set cur v in
+      if not (q_eq g cur') then oracle_fail clause site ("getter returns " ^ string_of_q g ^ " after set(" ^ string_of_q v ^ "), expected " ^ string_of_q cur');
+      cur') cur0 sets
+
 let rec chunks n l = if l = [] then [] else take n l :: chunks n (List.filteri (fun i _ -> i >= n) l)
 
 let judge _id (c : cursor) (r : cursor) : bool * string =
@@ -141,9 +153,10 @@ let judge _id (c : cursor) (r : cursor) : bool * string =
     (ties > 1 || ioN (List.hd (greedy_tieset q)) > 0, if ties > 1 then "gr-ties" else "gr")
   | "epg" ->
     let exact = (next c = "x") in
-    let q = next_qs c in let eps = next_q c in let _seed = next_int c in let nsamp = next_int c in
+    let q = next_qs c in let eps0 = next_q c in let esets = next_qs c in let _seed = next_int c in let nsamp = next_int c in
     require_sep q;
     let a = List.length q in
+    let eps = fold_setter "epsilon_set_spec" "EpsilonPolicyInterface::setEpsilon" eps_set eps_set_throws eps0 esets r in
     let pol = next_qs r in let probs = next_qs r in
     let ns = next_int r in
     if ns <> nsamp then failwith "sample count";
@@ -160,13 +173,14 @@ let judge _id (c : cursor) (r : cursor) : bool * string =
     c_vec exact "eps_prob" (site ^ "::getActionProbability") probs (List.map (fun p -> eps_prob eps (nat_of_int a) p) g);
     List.iter (fun (u, rr, cands, act) ->
         c_nat "eps_sample" (site ^ "::sampleAction") act (eps_sample eps u rr (greedy_model_sample q cands))) samp;
-    (q_lt q_zero eps && q_lt eps q_one, "epg")
+    (q_lt q_zero eps && q_lt eps q_one, if esets <> [] then "epg-setters" else "epg")
   | "mgr" ->
     let exact = (next c = "x") in
     let s = next_int c in let a = next_int c in
     let rows = List.init s (fun _ -> List.init a (fun _ -> next_q c)) in
-    let eps = next_q c in let _seed = next_int c in
+    let eps0 = next_q c in let esets = next_qs c in let _seed = next_int c in
     List.iter require_sep rows;
+    let eps = fold_setter "epsilon_set_spec" "MDP::EpsilonPolicy::setEpsilon" eps_set eps_set_throws eps0 esets r in
     let t1 = chunks a (next_qs r) in let t2 = chunks a (next_qs r) in
     let t3 = chunks a (next_qs r) in let t4 = chunks a (next_qs r) in
     if List.length t1 <> s || List.length t2 <> s || List.length t3 <> s || List.length t4 <> s then
@@ -195,43 +209,75 @@ let judge _id (c : cursor) (r : cursor) : bool * string =
   | "lrp" ->
     let exact = (next c = "x") in
     let an = next_nat c in let a = ioN an in
-    let pa = next_q c in let pb = next_q c in let eps = next_q c in
+    let pa = next_q c in let pb = next_q c in let eps0 = next_q c in
     let nops = next_int c in
-    let ops = List.init nops (fun _ -> let act = next_nat c in let res = next_int c <> 0 in (act, res)) in
+    let ops = List.init nops (fun _ ->
+        match next c with
+        | "u" -> let act = next_nat c in let res = next_int c <> 0 in LUpd (act, res)
+        | "a" -> LSetA (next_q c)
+        | "b" -> LSetB (next_q c)
+        | t -> failwith ("lrp op " ^ t)) in
+    let esets = next_qs c in
     let _seed = next_int c in let nsamp = next_int c in
-    let tables = List.init (nops + 1) (fun _ -> let p = next_qs r in let pr = next_qs r in (p, pr)) in
+    let site = "LRPPolicy" and esite = "EpsilonPolicyInterface" in
+    let rd_tab () = let p = next_qs_checked "lrp_simplex_invariant" (site ^ "::stepUpdateP") r in
+      let pr = next_qs_checked "lrp_simplex_invariant" (site ^ "::getActionProbability") r in
+      let ga = next_q r in let gb = next_q r in (p, pr, ga, gb) in
+    let tables = List.init (nops + 1) (fun _ -> rd_tab ()) in
     let epol = next_qs r in let eprobs = next_qs r in
+    let esteps = List.map (fun v -> let thrown = next_int r <> 0 in let ge = next_q r in
+                            let p = next_qs r in let pr = next_qs r in (v, thrown, ge, p, pr)) esets in
     let samp = List.init nsamp (fun _ -> let u = next_q r in let act = next_nat r in (u, act)) in
     let esamp = List.init nsamp (fun _ ->
         let u = next_q r in let rr = next_nat r in let ul = next_q r in let act = next_nat r in (u, rr, ul, act)) in
-    let site = "LRPPolicy" and esite = "EpsilonPolicyInterface" in
-    (* O: every prefix of the history leaves a probability vector; table = queries *)
-    List.iter (fun (p, pr) ->
+    (* O: every prefix of the history (updates and setters) leaves a probability vector; table = queries *)
+    List.iter (fun (p, pr, _, _) ->
         o_dist "lrp_simplex_invariant" (site ^ "::stepUpdateP") exact p a;
         o_agree "lrp_table_eq_query" site p pr) tables;
-    let (final, _) = List.nth tables nops in
+    let (final, _, _, _) = List.nth tables nops in
     o_dist "epsilon_mixture" (esite ^ "::getPolicy") exact epol a;
     o_agree "epsilon_mixture" esite epol eprobs;
+    let eps = ref eps0 in
+    List.iter (fun (v, thrown, ge, p, pr) ->
+        let should = eps_set_throws v in
+        if thrown <> should then oracle_fail "epsilon_set_spec" (esite ^ "::setEpsilon") ("setEpsilon(" ^ string_of_q v ^ ") " ^ (if thrown then "threw" else "was accepted"));
+        eps := eps_set !eps v;
+        if not (q_eq ge !eps) then oracle_fail "epsilon_set_spec" (esite ^ "::setEpsilon") ("getEpsilon() = " ^ string_of_q ge ^ " after setEpsilon(" ^ string_of_q v ^ ")");
+        o_dist "epsilon_setters" (esite ^ "::getPolicy") exact p a;
+        o_agree "epsilon_setters" esite p pr) esteps;
+    let eps = !eps in
+    let (efinal_pol) = (match List.rev esteps with [] -> epol | (_, _, _, p, _) :: _ -> p) in
     List.iter (fun (_, act) -> o_support "sample_prob_in_support" (site ^ "::sampleAction") final act) samp;
     List.iter (fun (u, _, _, act) ->
-        if q_lt q_zero eps || q_lt q_zero u then o_support "epsilon_sample_in_support" (esite ^ "::sampleAction") epol act) esamp;
+        if q_lt q_zero eps || q_lt q_zero u then o_support "epsilon_sample_in_support" (esite ^ "::sampleAction") efinal_pol act) esamp;
     (* C *)
     let st = ref (lrp_init an pa pb) in
-    List.iteri (fun i (p, _) ->
-        if i > 0 then st := lrp_step !st (List.nth ops (i - 1));
-        c_vec exact "lrp_step" (site ^ "::stepUpdateP") p (lrp_pol !st)) tables;
+    List.iteri (fun i (p, _, ga, gb) ->
+        if i > 0 then st := lrp_apply !st (List.nth ops (i - 1));
+        c_vec exact "lrp_apply" (site ^ "::stepUpdateP") p (lrp_pol !st);
+        c_vec false "lrp_getters" (site ^ "::getAParam/getBParam") [ga; gb] [lrp_getA !st; lrp_getB !st]) tables;
     let mfinal = lrp_pol !st in
-    c_vec exact "eps_policy" (esite ^ "::getPolicy") epol (eps_policy eps mfinal);
-    c_vec exact "eps_prob" (esite ^ "::getActionProbability") eprobs (List.map (fun p -> eps_prob eps an p) mfinal);
+    c_vec exact "eps_policy" (esite ^ "::getPolicy") epol (eps_policy eps0 mfinal);
+    c_vec exact "eps_prob" (esite ^ "::getActionProbability") eprobs (List.map (fun p -> eps_prob eps0 an p) mfinal);
+    let e = ref eps0 in
+    List.iter (fun (v, _, _, p, pr) ->
+        e := eps_set !e v;
+        c_vec exact "eps_policy" (esite ^ "::getPolicy") p (eps_policy !e mfinal);
+        c_vec exact "eps_prob" (esite ^ "::getActionProbability") pr (List.map (fun x -> eps_prob !e an x) mfinal)) esteps;
     (* sampling is decided on the implementation's own (double) table, so that rounding of the
        table cannot flip a comparison *)
     List.iter (fun (u, act) -> c_nat "sample_prob" (site ^ "::sampleAction") act (sample_prob final u)) samp;
     List.iter (fun (u, rr, ul, act) ->
         c_nat "eps_sample" (esite ^ "::sampleAction") act (eps_sample eps u rr (sample_prob final ul))) esamp;
-    (nops > 0, if nops > 3 then "lrp-long" else "lrp")
+    let nset = List.length (List.filter (function LUpd _ -> false | _ -> true) ops) in
+    (nops > 0, if nset > 0 then "lrp-setters" else if nops > 3 then "lrp-long" else "lrp")
   | "smx" | "smu" ->
     let _flag = next c in
-    let t = next_q c in let q = next_qs c in let sh = next_q c in let _seed = next_int c in let nsamp = next_int c in
+    let t0 = next_q c in let tsets = next_qs c in
+    let q = next_qs c in let sh = next_q c in let _seed = next_int c in let nsamp = next_int c in
+    let t = fold_setter "softmax_temperature_set_spec" "Bandit::QSoftmaxPolicy::setTemperature" temp_set temp_set_throws t0 tsets r in
+    let t' = fold_setter "softmax_temperature_set_spec" "MDP::QSoftmaxPolicy::setTemperature" temp_set temp_set_throws t0 tsets r in
+    if not (q_eq t t') then failwith "temperature fold";
     let qs = shift sh q in
     let greedy = q_le (q_abs t) (q_of_ints 1 1000000) in
     if greedy then (require_sep q; require_sep qs);
@@ -264,7 +310,7 @@ let judge _id (c : cursor) (r : cursor) : bool * string =
     List.iteri (fun k ((_, _, act) as s) ->
         c_nat "softmax_sample" (site ^ "::sampleAction") act
           (if k mod 2 = 0 then model_sample q m0 s else model_sample qs m1 s)) msamp;
-    (not greedy, if greedy then "smx-T0" else kind)
+    (not greedy, if greedy then "smx-T0" else if tsets <> [] then kind ^ "-setters" else kind)
   | "ts" | "tsn" ->
     let _a = next_int c in
     let counts = next_nats r in
@@ -272,6 +318,47 @@ let judge _id (c : cursor) (r : cursor) : bool * string =
     let samp = List.init ns (fun _ -> let vals = next_qs r in let act = next_nat r in (vals, act)) in
     List.iter (fun (vals, act) -> judge_thompson_call counts vals act) samp;
     (all_ge2 counts, kind)
+  | "t3c" ->
+    let a = next_int c in
+    let nrec = next_int c in
+    for _i = 1 to nrec do ignore (next c); ignore (next c) done;
+    let beta = next_q c in let var = next_q c in
+    let counts = next_nats r in
+    let means = next_qs r in
+    let ns = next_int r in
+    let site = "T3CPolicy::sampleAction" in
+    let nt = ref false and ill = ref false in
+    for _k = 1 to ns do
+      let vals = next_qs r in let us = next_qs r in let act = next_nat r in
+      if ioN act >= a then oracle_fail "t3c_result" site "action out of range";
+      (* the Thompson leader (checked against the replayed posterior samples as for ts) *)
+      let first = thompson_sample (List.combine counts vals) in
+      let explored = ioN (List.nth counts (ioN first)) >= 2 in
+      let pick = (match us with u0 :: _ -> q_lt u0 beta | [] -> failwith "t3c: no draws") in
+      let rest = (match us with _ :: t -> t | [] -> []) in
+      if explored && (not pick) && a >= 2 then begin
+        nt := true;
+        let costs = t3c_costs means counts var first in
+        (* O: the challenger differs from the leader and no other arm is clearly cheaper *)
+        let cost x = t3c_cost means counts var first x in
+        if ioN act = ioN first then oracle_fail "t3c_result" site "challenger equals the leader";
+        let ca = cost act in
+        List.iter (fun (x, w) ->
+            if ioN x <> ioN act && q_lt (q_add w (q_mul (q_of_ints 1 1000000) (q_add q_one (q_abs w)))) ca then
+              oracle_fail "t3c_result" site ("arm " ^ string_of_int (ioN x) ^ " is cheaper than the chosen challenger " ^ string_of_int (ioN act))) costs;
+        (* C only when no two costs are nearly (but not structurally) tied *)
+        let key x = (string_of_q (List.nth means (ioN x)), ioN (List.nth counts (ioN x))) in
+        List.iter (fun (x, w) -> List.iter (fun (y, w') ->
+            if ioN x < ioN y then begin
+              let d = q_abs (q_sub w w') in
+              if (not (q_eq w w')) && q_lt d (q_mul (q_of_ints 1 1000000000) (q_add q_one (q_abs w))) then ill := true;
+              if q_eq w w' && (not (q_eq w q_zero)) && key x <> key y then ill := true
+            end) costs) costs;
+        if not !ill then c_nat "t3c_sample" site act (t3c_sample means counts var first false rest)
+      end else
+        c_nat "t3c_sample" site act (t3c_sample means counts var first pick rest)
+    done;
+    (!nt, if !ill then "t3c-illcond" else "t3c")
   | "tt" | "ttn" ->
     let _a = next_int c in
     let counts = next_nats r in
@@ -300,25 +387,37 @@ let judge _id (c : cursor) (r : cursor) : bool * string =
     let s = next_int c in let a = next_int c in
     let rows = List.init s (fun _ -> List.init a (fun _ -> next_q c)) in
     List.iter require_sep rows;
-    let dw = next_q c in let dl = next_q c in let sc = next_q c in
+    let dw0 = next_q c in let dl0 = next_q c in let sc0 = next_q c in
     let nops = next_int c in
-    let ops = List.init nops (fun _ -> next_int c) in
+    let ops = List.init nops (fun _ ->
+        match next c with
+        | "u" -> `U (next_int c)
+        | "w" -> `W (next_q c) | "l" -> `L (next_q c) | "s" -> `S (next_q c)
+        | t -> failwith ("wolf op " ^ t)) in
     let _seed = next_int c in
     let site = "WoLFPolicy" in
     let rd_tables () = let t = chunks a (next_qs_checked "wolf_rows_dist" (site ^ "::stepUpdateP") r) in
       let pr = chunks a (next_qs_checked "wolf_rows_dist" (site ^ "::getActionProbability") r) in (t, pr) in
     let t0 = rd_tables () in
-    let steps = List.map (fun st -> let cands = next_nats r in let tb = rd_tables () in (st, cands, tb)) ops in
+    let steps = List.map (fun op ->
+        match op with
+        | `U _ -> let cands = next_nats r in let tb = rd_tables () in (op, cands, [], tb)
+        | _ -> let g1 = next_q r in let g2 = next_q r in let g3 = next_q r in let tb = rd_tables () in (op, [], [g1; g2; g3], tb)) ops in
     let samp = List.init s (fun _ -> let u = next_q r in let act = next_nat r in (u, act)) in
-    (* O: every dumped table: rows are probability vectors, table = queries *)
+    (* O: every dumped table: rows are probability vectors, table = queries; getters = last value set *)
     let o_tables (t, pr) =
       if List.length t <> s then oracle_fail "wolf_rows_dist" (site ^ "::getPolicy") "wrong number of rows";
       List.iter2 (fun row prow ->
           o_dist "wolf_rows_dist" (site ^ "::stepUpdateP") false row a;
           o_agree "wolf_table_eq_query" site row prow) t pr in
     o_tables t0;
-    List.iter (fun (_, _, tb) -> o_tables tb) steps;
-    let (tfinal, _) = (match List.rev steps with [] -> t0 | (_, _, tb) :: _ -> tb) in
+    let dw = ref dw0 and dl = ref dl0 and sc = ref sc0 in
+    List.iter (fun (op, _, getters, tb) ->
+        (match op with `W v -> dw := v | `L v -> dl := v | `S v -> sc := v | `U _ -> ());
+        if getters <> [] && not (List.for_all2 q_close getters [!dw; !dl; !sc]) then
+          oracle_fail "wolf_setters" (site ^ "::setDeltaW/setDeltaL/setScaling") ("getters " ^ str_qs getters);
+        o_tables tb) steps;
+    let (tfinal, _) = (match List.rev steps with [] -> t0 | (_, _, _, tb) :: _ -> tb) in
     List.iteri (fun i (_, act) -> o_support "sample_prob_in_support" (site ^ "::sampleAction") (List.nth tfinal i) act) samp;
     (* C: the model follows the history while every deltaW/deltaL decision has a clear margin *)
     let st = Array.make s (wolf_init (nat_of_int a)) in
@@ -326,26 +425,33 @@ let judge _id (c : cursor) (r : cursor) : bool * string =
     let cmp (t, _) = List.iteri (fun i row -> c_vec false "wolf_step" (site ^ "::stepUpdateP") row (w_act st.(i))) t in
     cmp t0;
     let ill = ref false in
-    List.iter (fun (sidx, cands, tb) ->
+    dw := dw0; dl := dl0; sc := sc0;
+    List.iter (fun (op, cands, _, tb) ->
         if not !ill then begin
+          match op with
+          | `W v -> dw := v; cmp tb
+          | `L v -> dl := v; cmp tb
+          | `S v -> sc := v; cmp tb
+          | `U sidx ->
           let q = List.nth rows sidx in
           let margin = wolf_margin q st.(sidx) in
           (* deltaW/deltaL decision on (near-)equal values: the double comparison may go either
              way, except on the first update of a row with A a power of two (both sides are then
              computed from bit-identical rows) *)
           let first_exact = q_eq margin q_zero && cnt.(sidx) = 0 && (a land (a - 1)) = 0 in
-          if (not (q_eq dw dl)) && q_lt (q_abs margin) (q_of_ints 1 10000000) && not first_exact then ill := true;
+          if (not (q_eq !dw !dl)) && q_lt (q_abs margin) (q_of_ints 1 10000000) && not first_exact then ill := true;
           if not !ill then begin
             let ties = List.length (greedy_tieset q) in
             let sel = List.nth cands (ties - 1) in
-            st.(sidx) <- wolf_step_row dw dl sc q st.(sidx) sel;
+            st.(sidx) <- wolf_step_row !dw !dl !sc q st.(sidx) sel;
             cnt.(sidx) <- cnt.(sidx) + 1;
             cmp tb
           end
         end) steps;
     if not !ill then
       List.iteri (fun i (u, act) -> c_nat "sample_prob" (site ^ "::sampleAction") act (sample_prob (List.nth tfinal i) u)) samp;
-    (nops > 0 && not !ill, if !ill then "wolf-illcond" else "wolf")
+    let nset = List.length (List.filter (function `U _ -> false | _ -> true) ops) in
+    (nops > 0 && not !ill, if !ill then "wolf-illcond" else if nset > 0 then "wolf-setters" else "wolf")
   | "mpol" ->
     let s = next_int c in let a = next_int c in
     let rows = List.init s (fun _ -> List.init a (fun _ -> next_q c)) in
@@ -361,17 +467,25 @@ let judge _id (c : cursor) (r : cursor) : bool * string =
   | "pga" ->
     let s = next_int c in let a = next_int c in
     let rows = List.init s (fun _ -> List.init a (fun _ -> next_q c)) in
-    let lr = next_q c in let pl = next_q c in
+    let lr0 = next_q c in let pl0 = next_q c in
     let nops = next_int c in
-    let ops = List.init nops (fun _ -> next_int c) in
+    let ops = List.init nops (fun _ ->
+        match next c with
+        | "u" -> `U (next_int c)
+        | "r" -> `R (next_q c) | "p" -> `P (next_q c)
+        | t -> failwith ("pga op " ^ t)) in
     let _seed = next_int c in
     let site = "PGAAPPPolicy" in
     let rd_tables () = let t = chunks a (next_qs_checked "pgaapp_rows_dist" (site ^ "::stepUpdateP") r) in
       let pr = chunks a (next_qs_checked "pgaapp_rows_dist" (site ^ "::getActionProbability") r) in (t, pr) in
     let t0 = rd_tables () in
-    let steps = List.map (fun st -> let tb = rd_tables () in (st, tb)) ops in
+    let steps = List.map (fun op ->
+        match op with
+        | `U _ -> let tb = rd_tables () in (op, None, tb)
+        | _ -> let thrown = next_int r <> 0 in let g1 = next_q r in let g2 = next_q r in let tb = rd_tables () in (op, Some (thrown, g1, g2), tb)) ops in
     let samp = List.init s (fun _ -> let u = next_q r in let act = next_nat r in (u, act)) in
-    (* O: what isProbability checks (entries >= 0, sum within 1e-6 of one), table = queries *)
+    (* O: what isProbability checks (entries >= 0, sum within 1e-6 of one), table = queries;
+       setters: negative values throw and change nothing, getters = value in force *)
     let tol6 = q_of_ints 1001 1000000000 in
     let o_tables (t, pr) =
       if List.length t <> s then oracle_fail "pgaapp_rows_dist" (site ^ "::getPolicy") "wrong number of rows";
@@ -380,18 +494,33 @@ let judge _id (c : cursor) (r : cursor) : bool * string =
             oracle_fail "pgaapp_rows_dist" (site ^ "::stepUpdateP") ("row is not a probability vector: " ^ str_qs row);
           o_agree "pgaapp_table_eq_query" site row prow) t pr in
     o_tables t0;
-    List.iter (fun (_, tb) -> o_tables tb) steps;
-    let (tfinal, _) = (match List.rev steps with [] -> t0 | (_, tb) :: _ -> tb) in
+    let lr = ref lr0 and pl = ref pl0 in
+    List.iter (fun (op, info, tb) ->
+        (match op, info with
+         | (`R v | `P v), Some (thrown, g1, g2) ->
+           if thrown <> neg_throws v then oracle_fail "pgaapp_setters" (site ^ "::setLearningRate/setPredictionLength") ("set(" ^ string_of_q v ^ ") " ^ (if thrown then "threw" else "was accepted"));
+           if not thrown then (match op with `R _ -> lr := v | _ -> pl := v);
+           if not (q_close g1 !lr && q_close g2 !pl) then oracle_fail "pgaapp_setters" (site ^ "::setLearningRate/setPredictionLength") "getters do not return the values in force"
+         | _ -> ());
+        o_tables tb) steps;
+    let (tfinal, _) = (match List.rev steps with [] -> t0 | (_, _, tb) :: _ -> tb) in
     List.iteri (fun i (_, act) -> o_support "sample_prob_in_support" (site ^ "::sampleAction") (List.nth tfinal i) act) samp;
     (* C: one-step simulation — the model's update applied to the implementation's previous row *)
     let e6 = q_of_ints 1 1000000 and e8 = q_of_ints 1 100000000 and e12 = q_of_ints 1 1000000000000 in
     let near x y = q_lt (q_abs (q_sub x y)) e8 in
     let ill = ref 0 and boundary = ref 0 in
     let prev = ref (fst t0) in
-    List.iter (fun (sidx, (t, _)) ->
+    lr := lr0; pl := pl0;
+    List.iter (fun (op, _, (t, _)) ->
+        match op with
+        | `R v -> if not (neg_throws v) then lr := v;
+          List.iteri (fun i row -> c_vec true "pga_other_rows" (site ^ "::setLearningRate") (List.nth t i) row) !prev; prev := t
+        | `P v -> if not (neg_throws v) then pl := v;
+          List.iteri (fun i row -> c_vec true "pga_other_rows" (site ^ "::setPredictionLength") (List.nth t i) row) !prev; prev := t
+        | `U sidx ->
         let q = List.nth rows sidx in
         let p = List.nth !prev sidx in
-        let g = pga_grad_row lr pl q p in
+        let g = pga_grad_row !lr !pl q p in
         let ps = possum g in
         let bad = near (q_abs (q_sub ps q_one)) e6 || near ps e6
                   || List.exists (fun pa -> near (q_abs (q_sub pa q_one)) e6) p
@@ -402,10 +531,136 @@ let judge _id (c : cursor) (r : cursor) : bool * string =
         List.iteri (fun i row -> if i <> sidx then c_vec true "pga_other_rows" (site ^ "::stepUpdateP") (List.nth t i) row) !prev;
         prev := t) steps;
     List.iteri (fun i (u, act) -> c_nat "sample_prob" (site ^ "::sampleAction") act (sample_prob (List.nth tfinal i) u)) samp;
-    (nops > 0, if !boundary > 0 then "pga-boundary" else "pga")
-  | "esrl" | "sr" | "rnd" ->
+    let nset = List.length (List.filter (function `U _ -> false | _ -> true) ops) in
+    (nops > 0, if !boundary > 0 then "pga-boundary" else if nset > 0 then "pga-setters" else "pga")
+  | "esrl" ->
+    let an = next_nat c in let a = ioN an in
+    let pa = next_q c in
+    let n0 = next_nat c in let ph0 = next_nat c in let w0 = next_nat c in
+    let nops = next_int c in
+    let ops = List.init nops (fun _ ->
+        match next c with
+        | "u" -> let act = next_nat c in let res = next_int c <> 0 in EUpd (act, res)
+        | "a" -> ESetA (next_q c)
+        | "t" -> ESetN (next_nat c)
+        | "e" -> ESetPhases (next_nat c)
+        | "w" -> ESetWindow (next_nat c)
+        | t -> failwith ("esrl op " ^ t)) in
+    let site = "ESRLPolicy" in
+    let rd first =
+      let u = next_q r in
+      let pol = next_qs_checked "esrl_rows_dist" (site ^ "::getPolicy") r in
+      let probs = next_qs_checked "esrl_rows_dist" (site ^ "::getActionProbability") r in
+      let act = next_nat r in
+      let (ex, ga) = if first then (false, pa) else (let e = next_int r <> 0 in let g = next_q r in (e, g)) in
+      (u, pol, probs, act, ex, ga) in
+    let s0 = rd true in
+    let steps = List.map (fun op -> (op, rd false)) ops in
+    (* O: after every operation (updates and setters): distribution, table = queries, sample in support *)
+    let o_one (_, pol, probs, act, _, _) =
+      o_dist "esrl_rows_dist" (site ^ "::getPolicy") false pol a;
+      o_agree "esrl_rows_dist" site pol probs;
+      o_support "esrl_rows_dist" (site ^ "::sampleAction") pol act in
+    o_one s0; List.iter (fun (_, x) -> o_one x) steps;
+    (* C: the state machine (phases, allowed actions, embedded LRI, exploitation switch) *)
+    let st = ref (esrl_init an pa n0 ph0 w0) in
+    let ill = ref false and switched = ref 0 in
+    let near_tie (v : q list) =
+      match List.sort (fun x y -> q_cmp y x) v with
+      | x :: y :: _ -> (not (q_eq x y)) && q_lt (q_sub x y) (q_of_ints 1 1000000000)
+      | _ -> false in
+    let cmp (u, pol, probs, act, ex, ga) first =
+      c_vec false "esrl_policy" (site ^ "::getPolicy") pol (esrl_policy !st);
+      c_vec false "esrl_prob" (site ^ "::getActionProbability") probs (List.map (fun x -> esrl_prob !st x) (range a));
+      if not first then begin
+        if ex <> e_exploit !st then disagree "esrl_exploit" (site ^ "::isExploiting") "exploitation flag differs";
+        c_vec false "esrl_getA" (site ^ "::getAParam") [ga] [lrp_getA (e_lri !st)]
+      end;
+      c_nat "esrl_sample" (site ^ "::sampleAction") act (esrl_sample !st u) in
+    cmp s0 true;
+    List.iter (fun (op, obs) ->
+        if not !ill then begin
+          let before_expl = ioN (e_expl !st) and before_ex = e_exploit !st in
+          (* decisions taken on (near-)ties that are not exact ties may go either way in doubles *)
+          (match op with
+           | EUpd (act, _) ->
+             let ends = ioN (e_expl !st) < ioN (e_phases !st) && index_of act (e_allowed !st) <> None
+                        && ioN (e_t !st) + 1 >= ioN (e_N !st) in
+             let st' = esrl_apply !st op in
+             if ends && near_tie (lrp_pol (lrp_step (e_lri !st) ((match index_of act (e_allowed !st) with Some i -> i | None -> O), (match op with EUpd (_, r) -> r | _ -> false)))) then ill := true;
+             if (not before_ex) && e_exploit st' && near_tie (e_values !st) then ill := true;
+             st := st'
+           | _ -> st := esrl_apply !st op);
+          if not !ill then begin
+            cmp obs false;
+            if ioN (e_expl !st) <> before_expl || e_exploit !st <> before_ex then incr switched
+          end
+        end) steps;
+    (!switched > 0, if !ill then "esrl-illcond" else if !switched > 0 then "esrl-phases" else "esrl")
+  | "sr" ->
+    let an = next_nat c in let a = ioN an in
+    let budget = next_nat c in
+    let site = "SuccessiveRejectsPolicy" in
+    let rd first =
+      let means = if first then [] else next_qs r in
+      let pol = next_qs_checked "sr_rows_dist" (site ^ "::getPolicy") r in
+      let probs = next_qs_checked "sr_rows_dist" (site ^ "::getActionProbability") r in
+      let act = next_nat r in
+      let phase = next_int r in let nk = next_int r in
+      let can = if first then false else next_int r <> 0 in
+      let avail = List.map ioN (next_nats r) in
+      (means, pol, probs, act, phase, nk, can, avail) in
+    let s0 = rd true in
+    let steps = ref [] in
+    while not (at_end r) do steps := rd false :: !steps done;
+    let steps = List.rev !steps in
+    (* O: the table is a distribution (the indicator of the arm to pull), equals the queries, the arm to
+       pull has probability one; rejected arms never come back; one arm is left at the end *)
+    let prev_avail = ref (List.init a (fun i -> i)) in
+    let o_one (_, pol, probs, act, phase, _, can, avail) =
+      o_dist "sr_safety" (site ^ "::getPolicy") true pol a;
+      o_agree "sr_safety" site pol probs;
+      o_support "sr_safety" (site ^ "::sampleAction") pol act;
+      (* on the implementation's own available set: it only shrinks, the arm to pull is in it (so a
+         rejected arm is never pulled again), one arm fewer per phase, a single arm at the end *)
+      if not (List.for_all (fun x -> List.mem x !prev_avail) avail) then
+        oracle_fail "sr_rejected_never_again" (site ^ "::stepUpdateQ") "a rejected arm became available again";
+      if not (List.mem (ioN act) avail) then
+        oracle_fail "sr_rejected_never_again" (site ^ "::sampleAction") ("arm " ^ string_of_int (ioN act) ^ " is not among the available arms");
+      if phase <= a && List.length avail + phase <> a + 1 then
+        oracle_fail "sr_safety" (site ^ "::stepUpdateQ") "number of available arms is not A + 1 - phase";
+      if (phase > a || can) && List.length avail <> 1 then
+        oracle_fail "sr_eventually_one" (site ^ "::stepUpdateQ") "more than one arm left at the end";
+      prev_avail := avail in
+    o_one s0; List.iter o_one steps;
+    (* C: the elimination state machine; n_k = ceil(x) is compared only when no x is within 1e-6 of an
+       integer (the C++ evaluates x in doubles) *)
+    let lb = logbar an in
+    let illnk = ref false in
+    if a > 2 then
+      for k = 1 to a do
+        let x = float_of_q (vio_qdiv (q_of_int (max 0 (ioN budget - a))) (q_mul lb (q_of_int (a + 1 - k)))) in
+        if Float.abs (x -. Float.round x) < 1e-6 then illnk := true
+      done;
+    if !illnk then (false, "sr-illcond") else begin
+      let st = ref (sr_init an budget) in
+      let cmp (_, pol, _, act, phase, nk, can, avail) first =
+        if avail <> List.map ioN (sr_avail !st) then disagree "sr_avail" (site ^ "::stepUpdateQ") "available arms differ";
+        c_nat "sr_sample" (site ^ "::sampleAction") act (sr_sample !st);
+        c_vec true "sr_policy" (site ^ "::getPolicy") pol (sr_policy !st);
+        if phase <> ioN (sr_phase !st) then disagree "sr_phase" (site ^ "::getCurrentPhase") ("impl " ^ string_of_int phase ^ " model " ^ string_of_int (ioN (sr_phase !st)));
+        if nk <> ioN (sr_new !st) then disagree "sr_nk" (site ^ "::getCurrentNk") ("impl " ^ string_of_int nk ^ " model " ^ string_of_int (ioN (sr_new !st)));
+        if (not first) && can <> (List.length (sr_avail !st) = 1) then disagree "sr_avail" (site ^ "::canRecommendAction") "differs" in
+      cmp s0 true;
+      List.iter (fun ((means, _, _, _, _, _, _, _) as obs) ->
+          st := sr_step !st means;
+          cmp obs false) steps;
+      let fin = List.length (sr_avail !st) = 1 in
+      (ioN (sr_phase !st) > 1, if fin then "sr-finished" else "sr")
+    end
+  | "rnd" ->
     let a = next_int c in
-    let site = (match kind with "esrl" -> "ESRLPolicy" | "sr" -> "SuccessiveRejectsPolicy" | _ -> "RandomPolicy") in
+    let site = "RandomPolicy" in
     let clause x = kind ^ "_" ^ x in
     let n = ref 0 and phases = ref [] in
     while not (at_end r) do
